@@ -55,6 +55,20 @@ type Case struct {
 	// into another address space (x XOR 64.0.0.0); each filter is probed with both spaces against
 	// its own model - instances share nothing
 	Twin bool `json:"twin,omitempty"`
+	// Big: that many further distinct ranges (80.0.0.0/4 space) are added after the fillers, so that the
+	// number of live entries passes 2^16 (a table index, counter or size hint narrower than int shows
+	// only there); BigDrain removes them all again after the ops and probes once more
+	Big      int  `json:"big,omitempty"`
+	BigDrain bool `json:"big_drain,omitempty"`
+}
+
+// bigOp is the i-th range of the big fill: distinct /28../32 ranges, 16 addresses apart.
+func bigOp(i int) Op {
+	return Op{IP: 0x50000000 + uint32(i)<<4 | 0x5, Ones: 28 + i%5}
+}
+
+func bigTouched(i, n int) bool {
+	return i < 3 || i >= n-3 || (i >= 253 && i <= 258) || (i >= 65533 && i <= 65538) || i%8191 == 0
 }
 
 const twinShift = 0x40000000
@@ -208,6 +222,20 @@ func runCase(cs Case, st *stats) (key, expected, observed string) {
 			return "filler-add-error", "nil", e
 		}
 	}
+	for i := 0; i < cs.Big; i++ {
+		o := bigOp(i)
+		if err := f.Add(o.ipnet()); err != nil {
+			return "big-add-error", "nil", err.Error()
+		}
+		m.apply(o)
+		adds++
+		if bigTouched(i, cs.Big) {
+			touch(o)
+		}
+	}
+	if cs.Big > 0 {
+		st.crossed = true
+	}
 	if cs.FillerRem > 0 {
 		for i := 0; i < cs.Filler; i += cs.FillerRem {
 			o := fillerOp(i)
@@ -330,6 +358,25 @@ func runCase(cs Case, st *stats) (key, expected, observed string) {
 			return k, e, ob
 		}
 	}
+	if cs.BigDrain {
+		for i := cs.Big - 1; i >= 0; i-- {
+			o := bigOp(i)
+			o.Rem = true
+			o.IP ^= 0x2
+			if err := f.Remove(o.ipnet()); err != nil {
+				return "big-rem-error", "nil", err.Error()
+			}
+			m.apply(o)
+			if i == cs.Big/2 {
+				if k, e, ob := probe("after half of the big fill was removed again"); k != "" {
+					return k, e, ob
+				}
+			}
+		}
+		if k, e, ob := probe("after the big fill was removed again"); k != "" {
+			return k, e, ob
+		}
+	}
 	return "", "", ""
 }
 
@@ -340,7 +387,7 @@ type mon struct{}
 func (mon) Name() string { return "ipfilter" }
 
 func (mon) Level(string) (string, string) {
-	return "exploration", "operation sequences (exhaustive over a 12-op alphabet up to length 4 (quick) / 5 (thorough), and over a 10-op alphabet of edge ranges (network address 0.0.0.0, top of the address space) up to length 3, and the main alphabet to length 3 on filters whose 200/256/257/300 filler ranges were all removed again, replayed from empty and after 254/255/256 filler adds so that they run in list mode, across the list→map migration and in map mode; plus seeded random sequences over a small universe steered across the migration), every boundary address of every touched range probed in 4- and 16-byte form (and as the tail of a genuine IPv6 address, which only 0.0.0.0/0 covers) against a set-of-prefixes model; the package's other exported helpers (FirstIP/LastIP) are called between the operations, and in 1/8 (exhaustive) resp. 1/3 (random) of the sequences a second filter instance receives the same history shifted into another address space, each instance probed with both spaces against its own model; distinct_nontrivial = distinct (filler, sequence) pairs whose sequence changes the model at least once"
+	return "exploration", "operation sequences (exhaustive over a 12-op alphabet up to length 4 (quick) / 5 (thorough), and over a 10-op alphabet of edge ranges (network address 0.0.0.0, top of the address space) up to length 3, and the main alphabet to length 3 on filters whose 200/256/257/300 filler ranges were all removed again, replayed from empty and after 254/255/256 filler adds so that they run in list mode, across the list→map migration and in map mode; plus seeded random sequences over a small universe steered across the migration; plus histories on filters holding 65 535 .. 70 000 (thorough: 300 000) ranges, which are then all removed again), every boundary address of every touched range probed in 4- and 16-byte form (and as the tail of a genuine IPv6 address, which only 0.0.0.0/0 covers) against a set-of-prefixes model; the package's other exported helpers (FirstIP/LastIP) are called between the operations, and in 1/8 (exhaustive) resp. 1/3 (random) of the sequences a second filter instance receives the same history shifted into another address space, each instance probed with both spaces against its own model; distinct_nontrivial = distinct (filler, sequence) pairs whose sequence changes the model at least once"
 }
 
 func (mon) Assumptions(string) []string {
@@ -348,7 +395,7 @@ func (mon) Assumptions(string) []string {
 }
 
 type shardArgs struct {
-	Kind   string `json:"kind"` // "exh" | "rand"
+	Kind   string `json:"kind"` // "exh" | "rand" | "big"
 	MaxLen int    `json:"max_len,omitempty"`
 	Part   int    `json:"part"`
 	Parts  int    `json:"parts"`
@@ -368,6 +415,14 @@ func (mon) Plan(prop, tier string, seed int64) []drv.Shard {
 	for p := 0; p < parts; p++ {
 		a, _ := json.Marshal(shardArgs{Kind: "rand", Part: p, Parts: parts, Count: nrand / parts})
 		out = append(out, drv.Shard{Name: fmt.Sprintf("rand-%d", p), Args: a})
+	}
+	bigs := []int{65535, 65536, 65537, 70000}
+	if tier == "thorough" {
+		bigs = append(bigs, 131073, 300000, 65536, 65537)
+	}
+	for p, n := range bigs {
+		a, _ := json.Marshal(shardArgs{Kind: "big", Part: p, Parts: len(bigs), Count: n})
+		out = append(out, drv.Shard{Name: fmt.Sprintf("big-%d", p), Args: a})
 	}
 	return out
 }
@@ -423,6 +478,9 @@ func alphabet() []Op {
 func seqKey(cs Case) string {
 	var sb strings.Builder
 	fmt.Fprintf(&sb, "f%d/%d:", cs.Filler, cs.FillerRem)
+	if cs.Big > 0 {
+		fmt.Fprintf(&sb, "big%d:", cs.Big)
+	}
 	for _, o := range cs.Ops {
 		sb.WriteString(o.String())
 		sb.WriteByte(';')
@@ -552,6 +610,21 @@ func (mn mon) Run(sh drv.Shard, c *drv.Ctx) {
 			return true
 		}
 		recD(nil, 0)
+	case "big":
+		// one long history per shard on a filter holding more than 2^16 ranges: a random sequence over the
+		// small universe, then the big fill is removed again
+		r := rand.New(rand.NewSource(sh.Seed*7919 + int64(a.Part)))
+		for _, fl := range []int{0, 255} {
+			cs := randCase(r)
+			if len(cs.Ops) > 300 {
+				cs.Ops = cs.Ops[:300]
+			}
+			cs.Filler, cs.Big, cs.BigDrain, cs.ProbeEvery, cs.RandProbes = fl, a.Count, true, 30, 8
+			c.Sample(map[string]any{"filler": cs.Filler, "big_fill": cs.Big, "ops": len(cs.Ops)})
+			if !exec(cs) {
+				break
+			}
+		}
 	case "rand":
 		r := rand.New(rand.NewSource(sh.Seed*1000003 + int64(a.Part)))
 		for i := 0; i < a.Count; i++ {
